@@ -621,6 +621,17 @@ def programs_free():
         add("tx_%s" % lvl, [O("set", 0, "k1", 4)],
             [("A", [O("begin", 1, l=lvl), O("set", 1, "k1", 22), O("set", 1, "k2", 23), O("get", 1, "k1"), O("commit", 1)]),
              ("B", [O("get", 0, "k1"), O("get", 0, "k2"), O("get", 0, "k1")]), ("C", [O("set", 0, "k2", 28), O("keys", 0)])])
+    # a transaction with a large store ends (its store goes back to the pool) while small transactions begin, write and
+    # read their own writes
+    ballast = []
+    for t in (1, 2, 7, 8):
+        ballast += [O("begin", t, l="RC"), O("fill", t, c=300), O("rollback", t)]
+    add("big_store_recycled", [O("set", 0, "k1", 3)],
+        [("A", ballast),
+         ("B", [O("begin", 3, l="RC"), O("set", 3, "k1", 40), O("get", 3, "k1"), O("commit", 3), O("begin", 4, l="RC"), O("set", 4, "k2", 41), O("get", 4, "k2"), O("commit", 4)]),
+         ("C", [O("begin", 5, l="RC"), O("set", 5, "k2", 46), O("get", 5, "k2"), O("rollback", 5), O("begin", 6, l="RC"), O("set", 6, "k2", 47), O("get", 6, "k2"), O("rollback", 6)]),
+         ("D", [O("get", 0, "k1"), O("get", 0, "k2")]),
+         ("E", [O("churn", c=150)]), ("F", [O("churn", c=150)])])
     add("delete_recreate", [O("set", 0, "k1", 5), O("set", 0, "k2", 2)],
         [("A", [O("del", 0, "k1"), O("set", 0, "k1", 34)]), ("B", [O("get", 0, "k1"), O("keys", 0), O("get", 0, "k1")]),
          ("C", [O("del", 0, "k2"), O("keys", 0)]), ("D", [O("get", 0, "k2"), O("get", 0, "k1")])])
